@@ -373,7 +373,7 @@ func (cl *cluster) key() string {
 		}
 		fmt.Fprintf(&b, "CB replicas=%v ro=%v fe=%v signals=%v clonestatus=%s cloneof=%d\n", vB.Replicas, vB.ReadOnly, vB.FrontendUp, cl.signalsB, st, cl.cloneOf)
 	}
-	fmt.Fprintf(&b, "M writes=%v snaps=%d adds=%d restarts=%d regs=%d reads=%d faults=%d lastsig=%+v\n", ack, cl.nSnaps, cl.nAdds, cl.nRestart, cl.nRegs, cl.nReads, cl.nFaults, cl.lastStartSignal())
+	fmt.Fprintf(&b, "M writes=%v snaps=%d adds=%d restarts=%d regs=%d reads=%d faults=%d lastsig=%+v\n", ack, cl.nSnaps, cl.nAdds, cl.nRestart, cl.nRegs, cl.nReads, cl.nFaults*10+cl.nResizes, cl.lastStartSignal())
 	h := sha1.Sum([]byte(b.String()))
 	cl.lastKeyText = b.String()
 	return fmt.Sprintf("%x", h[:12])
@@ -567,6 +567,18 @@ func (cl *cluster) enabled() []string {
 		case "Kill":
 			if cl.task != nil && !cl.task.done && (c.MaxRestarts == 0 || cl.nRestart < c.MaxRestarts) {
 				out = append(out, "Kill")
+			}
+		case "Resize":
+			if len(v.Backends) == 0 || cl.nResizes >= 2 {
+				continue
+			}
+			for _, k := range []string{"same", "shrink", "garbage", "empty", "wrongname"} {
+				out = append(out, "Resize:"+k+":0")
+			}
+			for _, m := range subsets(nonErr) {
+				if faultsLeft(m) {
+					out = append(out, fmt.Sprintf("Resize:grow:%d", m))
+				}
 			}
 		case "DelSnap":
 			if len(v.Backends) == 0 || (c.MaxFaults > 0 && cl.nDeletes >= 3) {
